@@ -681,7 +681,7 @@ func classify(replies []string) string {
 	case len(replies) == 1 && strings.HasPrefix(replies[0], "ERROR"):
 		return "error"
 	case len(replies) == 2 && strings.HasPrefix(replies[0], "ERROR") && strings.HasPrefix(replies[1], "ERROR"):
-		return "error2"
+		return "error2" // two ERROR lines for one request (the behaviour of the JSON branch as found): no class of the spec
 	case len(replies) == 1 && strings.HasPrefix(replies[0], "{"):
 		var m map[string]any
 		if json.Unmarshal([]byte(replies[0]), &m) == nil {
@@ -919,6 +919,13 @@ func (e *env08) checkHealth() (health, string) {
 		return crashed, e.crashText()
 	}
 
+	if _, err := os.Stat(e.d.Sock); err != nil {
+		// the process lives but its socket file is gone: somebody removed the scratch directory under the run
+		e.res.inconclusive("the daemon's socket file disappeared (%v): scratch directory removed by another run?", err)
+
+		return crashed, "environment destroyed"
+	}
+
 	return wedgedH, why + " / re-confirmed on another fresh session: " + why2
 }
 
@@ -1006,6 +1013,9 @@ func (e *env08) runSingle(v lineVec, inst int) error {
 	}
 	h, why := e.checkHealth()
 	defer k.Close()
+	if h == crashed && why == "environment destroyed" {
+		return fmt.Errorf("scratch directory destroyed")
+	}
 	switch h {
 	case crashed:
 		e.res.violate("C08:crash-after-"+c.key(), "the daemon exited after "+trunc(string(line), 200)+": "+why, replay)
@@ -1254,6 +1264,9 @@ func (e *env08) runPair(idx int, sv sessVec, mode string) error {
 		return last
 	}
 	h, why := e.checkHealth()
+	if h == crashed && why == "environment destroyed" {
+		return fmt.Errorf("scratch directory destroyed")
+	}
 	switch h {
 	case crashed:
 		e.res.violate("C08:crash-in-pair-"+strings.Join(sv.A, ",")+"+"+strings.Join(sv.B, ","), "the daemon exited during a session pair: "+why, replay)
